@@ -1,6 +1,7 @@
 """C08 - arbitrary input cannot crash or derail the daemon (DESIGN.md C08)."""
 import os
 import random
+import re
 
 import daemon
 import gen
@@ -178,12 +179,22 @@ def _stream_worker(a):
         ref_out = comparable(ref_out)
         results.append(("junk-ref", b"\n".join(good), ref_r, None))
         unused = [i for i in (4242, 31337, 77, 123456789, 2147483646) if i not in ids]
+        # routing tags and services that really occur in the good stream (for malformed replies that name a live exchange)
+        live = [(m_.group(1), m_.group(2)) for m_ in (re.match(r"^-1 [Xx] (\S+) (\S+) :", l_) for l_ in lines) if m_]
         for rep in range(a["reps"]):
             mixed = []
             for l in good:
                 while rng.random() < 0.3:
                     c = rng.random()
-                    if c < 0.4:
+                    if c < 0.12 and live:
+                        # a reply or unlinked notice without its text parameter, for a tag and service of the good stream
+                        sv_, tg_ = rng.choice(live)
+                        mixed.append(("-1 %s %s %s" % (rng.choice("Xx"), sv_, tg_)).encode())
+                    elif c < 0.2:
+                        # one over-long junk line (unknown command word) whose body is made of fragments that would be valid lines
+                        frag = rng.choice(["%d D " % rng.choice(ids), "%d T " % rng.choice(ids), "%d H " % rng.choice(ids), "-1 X login.svc %x_1 :NO x " % rng.choice(ids)])
+                        mixed.append(("-1 zzz " + frag * (rng.choice([3000, 9000, 20000, 70000]) // len(frag))).encode())
+                    elif c < 0.4:
                         cmd = rng.choice("DNdPUunHTEMXx?")
                         mixed.append(("%d %s%s" % (rng.choice(unused), cmd, rng.choice(["", " a", " a b :c d", " :x"]))).encode())
                     elif c < 0.7:
